@@ -85,6 +85,32 @@ func gfsMutate(op string) bool {
 	return GfsMuts == GfsCrashK
 }
 
+// FsMutation is gfsMutate for the native wrapper package zos.
+func FsMutation(op string) bool { return gfsMutate(op) }
+
+var gfsTempSeq int
+
+// GfsCreateTemp models os.CreateTemp: the "random" part is a counter.
+func GfsCreateTemp(dir, pattern string) (*GFile, error) {
+	if dir == "" {
+		dir = "/tmp"
+	}
+	for {
+		gfsTempSeq++
+		suffix := string(rune('0' + gfsTempSeq%10))
+		name := pattern + suffix
+		for i := 0; i < len(pattern); i++ {
+			if pattern[i] == '*' {
+				name = pattern[:i] + suffix + pattern[i+1:]
+			}
+		}
+		f, err := GfsOpenFile(filepath.Join(dir, name), os.O_RDWR|os.O_CREATE|os.O_EXCL, 0600)
+		if err == nil || !GfsIsExist(err) {
+			return f, err
+		}
+	}
+}
+
 func gfsParentOK(p string) bool {
 	d := filepath.Dir(p)
 	if d == "/" {
@@ -299,6 +325,15 @@ func GfsWriteFile(name string, data []byte, perm fs.FileMode) error {
 	f.Close()
 	return err
 }
+
+func GfsChmod(name string, mode fs.FileMode) error {
+	if gfsFind(gfsClean(name)) == nil {
+		return gfsErr("chmod", name, gErrNotExist)
+	}
+	return nil // permissions are not modelled
+}
+
+func (f *GFile) Chmod(mode fs.FileMode) error { return f.chk("chmod") }
 
 func GfsChtimes(name string, atime time.Time, mtime time.Time) error {
 	n := gfsFind(gfsClean(name))
@@ -706,3 +741,14 @@ func Skip() {}
 
 // FixedStamp is the stub target for time-stamp text that the property does not depend on.
 func FixedStamp() string { return "TS" }
+
+// FsRemoveFile removes a file on behalf of the harness (not counted as a mutation).
+func FsRemoveFile(path string) {
+	if Native() {
+		os.Remove(path)
+		return
+	}
+	saved := GfsMuts
+	GfsRemove(path)
+	GfsMuts = saved
+}
